@@ -310,9 +310,17 @@ class Check:
             elif mo is not None and mo and mo[0] == "driver-error":
                 dis = "driver-error: " + sx.show(mo)
             else:
+                # an observation of a shape the comparison / the oracle cannot read (a changed implementation may return
+                # anything) is a failure of that case, never a crash of the check
                 if mo is not None:
-                    dis = self.mod.compare(c, mo, io)
-                orc = self.mod.oracle(c, io, mo)
+                    try:
+                        dis = self.mod.compare(c, mo, io)
+                    except Exception as exc:  # noqa
+                        dis = f"the observation cannot be compared with the model's ({type(exc).__name__}: {exc}): impl {sx.show(io)[:300]}"
+                try:
+                    orc = self.mod.oracle(c, io, mo)
+                except Exception as exc:  # noqa
+                    orc = f"the observation is not of the form the property's oracle reads ({type(exc).__name__}: {exc}): {sx.show(io)[:300]}"
             results.append({"case": c, "line": l, "model": m, "impl": i, "dis": dis, "orc": orc, "io": io, "mo": mo})
         return results
 
@@ -408,6 +416,14 @@ class Check:
         replay_paths = []
 
         def write_replay(name, payload):
+            note = getattr(mod, "case_note", None)
+            if note and payload.get("case"):
+                try:
+                    n = note(sx.parse(payload["case"]))
+                    if n:
+                        payload["note"] = n
+                except Exception:  # noqa
+                    pass
             p = os.path.join(OUT, "replays", f"{pid}-{seed}-{name}.json")
             json.dump(payload, open(p, "w"), indent=1)
             replay_paths.append(p)
